@@ -142,8 +142,19 @@ func (s *Solver) Push() {
 // Fresh starts a new solver process holding the current assertions without
 // any push/pop history, so that its first check-sat runs non-incrementally
 // (full preprocessing). Used when the incremental core answers unknown.
-func (s *Solver) Fresh(timeoutMs int) *Solver {
-	ns := &Solver{bin: s.bin, timeout: timeoutMs}
+func (s *Solver) Fresh(timeoutMs int) *Solver { return s.FreshBin(s.bin, timeoutMs) }
+
+// secondSolver: the other z3 release on this image, used as a last resort when the first
+// one answers unknown non-incrementally too ("" if not installed).
+var secondSolver = func() string {
+	if p, err := exec.LookPath("z3-new"); err == nil {
+		return p
+	}
+	return ""
+}()
+
+func (s *Solver) FreshBin(bin string, timeoutMs int) *Solver {
+	ns := &Solver{bin: bin, timeout: timeoutMs}
 	ns.args = []string{"-in"}
 	if strings.Contains(s.bin, "cvc5") {
 		ns.args = s.args
